@@ -278,6 +278,9 @@ def gen_request(rng, desc, depth=3):
 
 HOSTILE = ["%", "%s", "%d", "%(x)s", "100%", "50% off", "%%", "% ", "%5", "{}", "{0}", "{x}", "{", "\\", "a\\nb\\", '"', "'", "q\"uo'te",
            "line\nbreak", "cr\r\nlf", "nul\x00byte", "\U0001f600 astral", "lone \ud800 surrogate", "x" * 5000, "${x}", "%c", "\x7f", "\u2028"]
+# messages that are not `str`: `raise ResolverError(err)` wrapping a caught exception is the standard Python idiom
+MESSAGE_OBJECTS = [lambda: ValueError("invalid literal for int() with base 10: 'x' 100% {0}"), lambda: KeyError("missing"), lambda: 404,
+                   lambda: None, lambda: b"bytes", lambda: ["a", 1], lambda: 1.5, lambda: Exception()]
 MESSAGES = ["boom", "", "nö ✓", "line1\nline2", "x" * 40, "100% wrong %s %(x)s {0} {}", "back\\slash \"quoted\" \x00 \U0001f600"]
 import collections
 import collections.abc
@@ -314,24 +317,33 @@ EXT_FACTORIES = [
 ]
 
 
+# extensions OUTSIDE the documented contract `Optional[Mapping[str, Any]]` of JSON values (only drawn by worlds with bad_ext=True)
+import datetime
+BAD_EXT_FACTORIES = [lambda: {"when": datetime.datetime(2020, 1, 1)}, lambda: {"set": {1, 2}}, lambda: {"exc": ValueError("x")}, lambda: {"b": b"bytes"},
+                     lambda: {1: "int key", None: 2}, lambda: "oops", lambda: 42, lambda: ["a", "b"], lambda: [("k", 1)], lambda: {"nan": float("nan")}]
+
+
 def render(err):
-    """what an error-logging layer does with an error before letting it continue"""
-    err.to_dict()
-    str(err)
-    repr(err)
+    """what an error-logging layer does with an error before letting it continue (a logger swallows its own failures)"""
+    for f in (err.to_dict, lambda: str(err), lambda: repr(err)):
+        try:
+            f()
+        except Exception:  # noqa
+            pass
 
 
 # module-level constant errors (NOT_FOUND = ResolverError(...)): created once per process, serialised right away
 CONSTANTS = {}
 
 
-def constant_error(msg, idx):
+def constant_error(msg, idx, mi=None):
     from py_gql.exc import ResolverError
-    key = (msg, idx)
+    key = (msg, idx, mi)
     err = CONSTANTS.get(key)
     if err is None:
         ext = EXT_FACTORIES[idx]()
-        err = CONSTANTS[key] = ResolverError(msg) if ext is None else ResolverError(msg, extensions=ext)
+        m = msg if mi is None else MESSAGE_OBJECTS[mi]()
+        err = CONSTANTS[key] = ResolverError(m) if ext is None else ResolverError(m, extensions=ext)
         render(err)
     return err
 
@@ -387,7 +399,7 @@ class World:
     """Deterministic resolver outcomes: a function of (seed, response path)."""
 
     def __init__(self, seed, schema, p_raise=0.1, p_null=0.15, p_null_nn=0.08, nonfinite=False, odd_scalars=True, min_items=0,
-                 p_complete=0.0):
+                 p_complete=0.0, nonstr_messages=True, bad_ext=False):
         self.seed = seed
         self.schema = schema
         self.p_raise, self.p_null, self.p_null_nn = p_raise, p_null, p_null_nn
@@ -395,6 +407,10 @@ class World:
         self.odd = odd_scalars
         self.min_items = min_items
         self.p_complete = p_complete
+        self.nonstr_messages = nonstr_messages
+        self.injected_nonstr = False
+        self.bad_ext = bad_ext
+        self.injected_bad_ext = False
         self.completion_raised = set()   # field paths whose value raised ResolverError while being COMPLETED
         self.calls = []          # [(path tuple, field type, outcome)]
         self.injected_nonfinite = False
@@ -446,14 +462,20 @@ class World:
         from py_gql.exc import ResolverError
         rng = self.rng_for(path)
         if rng.random() < self.p_raise:
-            msg = rng.choice(MESSAGES)
+            mi = rng.randrange(len(MESSAGES) + (len(MESSAGE_OBJECTS) if self.nonstr_messages else 0))
+            if mi < len(MESSAGES):
+                msg, mi = MESSAGES[mi], None
+            else:
+                mi -= len(MESSAGES)
+                msg = str(MESSAGE_OBJECTS[mi]())     # what the response must carry: the message AS A STRING
+                self.injected_nonstr = True
             idx = rng.randrange(len(EXT_FACTORIES))
             # 0: fresh ResolverError, 1: fresh application subclass, 2: ONE shared instance per (message, extensions)
             # raised again and again within the request, 3: fresh, constructed with a bogus path, 4: a MODULE-LEVEL constant
             # (lives across requests and configurations) that was serialised when it was created, 5: fresh, rendered
             # (to_dict/str/repr) by the resolver itself before it is raised
             cls = rng.choice([0, 1, 2, 2, 3, 4, 4, 5])
-            return ("raised", msg, EXT_FACTORIES[idx](), cls, idx)
+            return ("raised", msg, EXT_FACTORIES[idx](), cls, idx, mi)
         v = self.value_of(ftype, rng)
         if self.p_complete and rng.random() < self.p_complete:
             v = self.inject(v, ftype, tuple(path), rng)
@@ -500,18 +522,22 @@ class World:
         self.calls.append((path, ftype, [n.loc[0] for n in info.nodes if n.loc], o))
         if o[0] == "raised":
             ext = EXT_FACTORIES[o[4]]()      # the object handed to the library; o[2] stays pristine
+            if self.bad_ext and o[3] in (0, 1, 5):
+                ext = BAD_EXT_FACTORIES[(o[4] + len(path)) % len(BAD_EXT_FACTORIES)]()
+                self.injected_bad_ext = True
+            m = o[1] if o[5] is None else MESSAGE_OBJECTS[o[5]]()
             if o[3] == 2:
-                key = (o[1], o[4])
+                key = (o[1], o[4], o[5])
                 err = self.shared.get(key)
                 if err is None:
-                    err = self.shared[key] = ResolverError(o[1]) if ext is None else ResolverError(o[1], extensions=ext)
+                    err = self.shared[key] = ResolverError(m) if ext is None else ResolverError(m, extensions=ext)
                 raise err
             if o[3] == 4:
-                raise constant_error(o[1], o[4])
+                raise constant_error(o[1], o[4], o[5])
             if o[3] == 3:
-                raise ResolverError(o[1], path=["bogus", 0], extensions=ext)
+                raise ResolverError(m, path=["bogus", 0], extensions=ext)
             cls = _MyError() if o[3] == 1 else ResolverError
-            err = cls(o[1]) if ext is None else cls(o[1], extensions=ext)
+            err = cls(m) if ext is None else cls(m, extensions=ext)
             if o[3] == 5:
                 render(err)
             raise err
